@@ -134,3 +134,16 @@ pub fn has_edge_blank(s: &str) -> bool {
 pub fn has_non_bmp(s: &str) -> bool {
     s.chars().any(|c| (c as u32) > 0xFFFF)
 }
+
+/// Own stratum: carriage returns (ECMA-376 writes them as _x000D_; a raw CR is normalised to
+/// LF by every conforming XML parser) and characters XML 1.0 cannot carry at all.
+pub fn cr_text() -> BoxedStrategy<String> {
+    ("[a-z]{0,3}", prop::sample::select(vec!["\r", "\r\n", "\n\r", "a\rb"]), "[a-z]{0,3}")
+        .prop_map(|(a, b, c)| format!("{}{}{}", a, b, c))
+        .boxed()
+}
+pub fn c0_text() -> BoxedStrategy<String> {
+    ("[a-z]{0,3}", prop::sample::select(vec!['\u{1}', '\u{8}', '\u{b}', '\u{c}', '\u{1f}', '\u{0}', '\u{fffe}', '\u{ffff}']), "[a-z]{0,3}")
+        .prop_map(|(a, b, c)| format!("{}{}{}", a, b, c))
+        .boxed()
+}
